@@ -22,6 +22,10 @@ SITE_TABLE = [
     ("numpy2-setitem-sequence", "ValueError", r"setting an array element with a sequence", r"compose/_reduce\.py:_predict_last_window$"),
     ("numpy2-setitem-sequence", "TypeError", r"only (length-1|0-dimensional) arrays can be converted", r"compose/_reduce\.py:_predict_last_window$"),
     ("numba-stub-bounds-check", "IndexError", r"out of bounds", r"dictionary_based/_sfa\.py:_create_word$"),
+    # scipy's Brent bracketing gives up on a monotone Box-Cox objective (series with extreme outliers, method="pearsonr"): a numerical
+    # refusal of the third-party optimiser (older scipy: RuntimeError "Too many iterations"), no property speaks about it
+    ("scipy-optimizer-no-bracket", "BracketError", r"valid bracket", r"series/boxcox\.py:optimizer$"),
+    ("scipy-optimizer-no-bracket", "RuntimeError", r"Too many iterations", r"series/boxcox\.py:optimizer$"),
 ]
 _C = [(n, t, re.compile(p)) for n, t, p in TABLE]
 _S = [(n, t, re.compile(p), re.compile(s)) for n, t, p, s in SITE_TABLE]
